@@ -33,6 +33,7 @@ CONSTANTS
   RegRd = 1
   SwapAmounts = {}
   MaxRej = 0
+  Sample = FALSE
   MathMaxIn = 0
   MathScales = {0}
 INVARIANTS
